@@ -57,9 +57,9 @@ func permutations(n int, f func(p []int)) {
 }
 
 // runProgram checks one program with and without every feasible initial basis.
-func runProgram(t *vlib.T, st *lpStats, m, n int, a, b, c []float64, s *stdMatrix, sweep bool) {
+func runProgram(t *vlib.T, gd *lpGuard, st *lpStats, m, n int, a, b, c []float64, s *stdMatrix, sweep bool) {
 	ans := s.solve(b, c, sweep)
-	optF, x, err, pan := callSimplex(c, m, n, a, b, nil)
+	optF, x, err, pan := callSimplex(gd, c, m, n, a, b, nil)
 	oc, vclass, msg := judgeSimplex(s, a, b, c, &ans, optF, x, err, pan)
 	st.n[oc]++
 	t.Count("lp_programs", 1)
@@ -71,7 +71,7 @@ func runProgram(t *vlib.T, st *lpStats, m, n int, a, b, c []float64, s *stdMatri
 	}
 	if sweep && ans.precondOK && m < n {
 		for _, basis := range ans.feasible {
-			optF, x, err, pan := callSimplex(c, m, n, a, b, basis)
+			optF, x, err, pan := callSimplex(gd, c, m, n, a, b, basis)
 			oc, vclass, msg := judgeSimplex(s, a, b, c, &ans, optF, x, err, pan)
 			st.n["basis:"+oc]++
 			t.Count("lp_initial_basis_runs", 1)
@@ -93,19 +93,21 @@ func genLPFamily(g *vlib.G) {
 			first := first
 			g.Case(fmt.Sprintf("%s all column permutations with column %d first", p.name, first), func(t *vlib.T) {
 				st := newLPStats()
-				permutations(p.n, func(perm []int) {
-					if perm[0] != first {
-						return
-					}
-					a := make([]float64, p.m*p.n)
-					c := make([]float64, p.n)
-					for j, src := range perm {
-						c[j] = p.c[src]
-						for i := 0; i < p.m; i++ {
-							a[i*p.n+j] = p.a[i*p.n+src]
+				runGuarded(t, func(gd *lpGuard) {
+					permutations(p.n, func(perm []int) {
+						if perm[0] != first {
+							return
 						}
-					}
-					runProgram(t, st, p.m, p.n, a, p.b, c, newStdMatrix(p.m, p.n, a), true)
+						a := make([]float64, p.m*p.n)
+						c := make([]float64, p.n)
+						for j, src := range perm {
+							c[j] = p.c[src]
+							for i := 0; i < p.m; i++ {
+								a[i*p.n+j] = p.a[i*p.n+src]
+							}
+						}
+						runProgram(t, gd, st, p.m, p.n, a, p.b, c, newStdMatrix(p.m, p.n, a), true)
+					})
 				})
 				st.flush(t)
 			})
@@ -164,10 +166,12 @@ func genLPFamily(g *vlib.G) {
 						b[i] = 1
 					}
 					c := make([]float64, n)
-					for ci := part; ci < nc; ci += parts {
-						digits(ci, len(calpha), n, calpha, c)
-						runProgram(t, st, m, n, a, b, c, s, drop >= 0 && (k == 2 || ci%16 == 0))
-					}
+					runGuarded(t, func(gd *lpGuard) {
+						for ci := part; ci < nc; ci += parts {
+							digits(ci, len(calpha), n, calpha, c)
+							runProgram(t, gd, st, m, n, a, b, c, s, drop >= 0 && (k == 2 || ci%16 == 0))
+						}
+					})
 					st.flush(t)
 				})
 			}
@@ -233,29 +237,31 @@ func genLPConvert(g *vlib.G) {
 				b := make([]float64, sp.q)
 				c := make([]float64, sp.nv)
 				nh, nb, nc := ipow(len(sp.hAlpha), sp.p), ipow(len(sp.bAlpha), sp.q), ipow(3, sp.nv)
-				for gi := blk; gi < nG; gi += blocks {
-					digits(gi, 3, sp.p*sp.nv, q3, G)
-					for ai := 0; ai < nA; ai++ {
-						digits(ai, 3, sp.q*sp.nv, q3, A)
-						for hi := 0; hi < nh; hi++ {
-							digits(hi, len(sp.hAlpha), sp.p, sp.hAlpha, h)
-							for bi := 0; bi < nb; bi++ {
-								digits(bi, len(sp.bAlpha), sp.q, sp.bAlpha, b)
-								for ci := 0; ci < nc; ci++ {
-									digits(ci, 3, sp.nv, q3, c)
-									convertOne(t, st, &sp, G, h, A, b, c)
+				runGuarded(t, func(gd *lpGuard) {
+					for gi := blk; gi < nG; gi += blocks {
+						digits(gi, 3, sp.p*sp.nv, q3, G)
+						for ai := 0; ai < nA; ai++ {
+							digits(ai, 3, sp.q*sp.nv, q3, A)
+							for hi := 0; hi < nh; hi++ {
+								digits(hi, len(sp.hAlpha), sp.p, sp.hAlpha, h)
+								for bi := 0; bi < nb; bi++ {
+									digits(bi, len(sp.bAlpha), sp.q, sp.bAlpha, b)
+									for ci := 0; ci < nc; ci++ {
+										digits(ci, 3, sp.nv, q3, c)
+										convertOne(t, gd, st, &sp, G, h, A, b, c)
+									}
 								}
 							}
 						}
 					}
-				}
+				})
 				st.flush(t)
 			})
 		}
 	}
 }
 
-func convertOne(t *vlib.T, st *lpStats, sp *convSpace, G, h, A, b, c []float64) {
+func convertOne(t *vlib.T, gd *lpGuard, st *lpStats, sp *convSpace, G, h, A, b, c []float64) {
 	nv, p, q := sp.nv, sp.p, sp.q
 	desc := func() string {
 		return fmt.Sprintf("G=%v h=%v A=%v b=%v c=%v (vars=%d)", G, h, A, b, c, nv)
@@ -336,7 +342,7 @@ func convertOne(t *vlib.T, st *lpStats, sp *convSpace, G, h, A, b, c []float64) 
 	s := newStdMatrix(m, n, wantA, true)
 	preOK := s.rank == m && !s.zeroCol
 	ans := lpAnswer{class: ref.class, opt: ref.opt, precondOK: preOK}
-	optF, x, err, pan := callSimplex(wantC, m, n, wantA, wantB, nil)
+	optF, x, err, pan := callSimplex(gd, wantC, m, n, wantA, wantB, nil)
 	oc, vclass, msg := judgeSimplex(s, wantA, wantB, wantC, &ans, optF, x, err, pan)
 	st.n[oc]++
 	if msg != "" {
